@@ -51,6 +51,25 @@ if confirmed:
             t0 = time.time()
             rc, o = sh("./check %s --tier %s" % (p, tier), cwd="/verif")
             viol = [l for l in o.split("\n") if l.startswith("VIOLATION") or l.startswith("KNOWN-FINDING")]
+            # first failing input(s) reported by this run -> corpus of minimised past failures (runs first in every check)
+            fails = []
+            for l in viol:
+                if "replay=" in l and "no-failing-input-found" not in l:
+                    rp = l.split("replay=")[1].split()[0]
+                    try:
+                        rd = json.load(open(rp))
+                        fails += rd.get("cases") or [rd["case"]]
+                    except Exception:
+                        pass
+            if fails:
+                os.makedirs("/verif/gen/corpus", exist_ok=True)
+                cp = "/verif/gen/corpus/%s.txt" % p
+                have = set(open(cp).read().split("\n")) if os.path.exists(cp) else set()
+                with open(cp, "a") as f:
+                    for c in fails[:4]:
+                        if c not in have:
+                            f.write("# seeded %s_%s\n%s\n" % (prop, label, c)); have.add(c)
+            out.setdefault("first_failing_inputs", {})[p] = fails[:4]
             out["ran"].append({"cmd": "./check %s --tier %s" % (p, tier), "exit": rc, "lines": viol[:6],
                                "summary": [l for l in o.split("\n") if " tier=" in l][:1], "wall_s": round(time.time() - t0, 1)})
     finally:
